@@ -258,6 +258,8 @@ let call_fn (id : n) (args : value list) : fres =
   | 21, [_] -> FOk (VStr (str_of_ascii "hello"))
   | 22, [_] -> FOk (VStr (str_of_ascii "ptrm"))
   | 23, [_; VStr s] -> FOk (VStr (s @ s))
+  | 24, [recv] -> (match field_of recv "N" with Some (VInt (_, k)) -> FOk (VInt (KInt64, wrap64 (Z.add k (z_of_int 1)))) | _ -> FPanic)
+  | 25, [recv] -> (match field_of recv "N" with Some (VInt (_, k)) -> FOk (VInt (KInt64, k)) | _ -> FPanic)
   | _, _ -> FBadArgs    (* reflect: wrong argument count or type *)
 
 let cause_s = function CNoSuchValue -> "nosuch" | CUser k -> "user" ^ string_of_int (int_of_n k) | COther -> "err"
